@@ -112,7 +112,7 @@ def solve(preps, timeout, budget_s):
     for (k, _), r in zip(s2, smt.solve_many([q for _, q in s2], timeout_s=timeout, deadline=deadline)):
         answers[k] = r
     # vacuity probes: satisfiability questions, short budget, single attempt, `unknown` is "not shown"
-    for (k, _), r in zip(vac, smt.solve_many([q for _, q in vac], timeout_s=3, use_cvc5='single', deadline=time.time() + 60)):
+    for (k, _), r in zip(vac, smt.solve_many([q for _, q in vac], timeout_s=3, use_cvc5='single', deadline=time.time() + 8)):
         answers[k] = r
     return answers
 
